@@ -16,6 +16,7 @@ import bz2, ctypes, datetime, gzip, json, lzma, os, random, re, shutil, struct, 
 from concurrent.futures import ThreadPoolExecutor
 import vlib
 from vlib import CACHE, REPO
+import c09_render
 
 PROP_FILE = "Props/C09.v"
 OTHER_RENDERINGS = ["short", "short-precise", "short-iso", "short-iso-precise", "short-full",
@@ -658,7 +659,7 @@ def run(ctx):
     phase = {}
     t_phase = time.time()
     # ---- A
-    vlib.proof_stage(ctx, PROP_FILE, ["nogen"], extra_targets=["Corr/C09.vo"])
+    vlib.proof_stage(ctx, PROP_FILE, ["journal"], extra_targets=["Corr/C09.vo", "Corr/C09r.vo"])
     phase["proof"] = round(time.time() - t_phase, 1); t_phase = time.time()
     # ---- builds
     ok, log = vlib.build_s4()
@@ -751,6 +752,8 @@ def run(ctx):
             jobs.append(dict(fx=fx, path=fx["plain"], container="plain", rendering="cat", A=X - 1, B=X, tz=tz, naive=True))
             jobs.append(dict(fx=fx, path=fx["plain"], container="plain", rendering="short", A=X, B=X + 1, tz=tz))
             jobs.append(dict(fx=fx, path=fx["plain"], container="plain", rendering="verbose", A=None, B=X, tz=tz))
+    n_std_jobs = len(jobs)
+    jobs += c09_render.plan(fxs, quick, rng)
     with ThreadPoolExecutor(max_workers=vlib.NCPU) as ex:
         jobs = list(ex.map(runner.run, jobs))
     phase["binary_runs"] = round(time.time() - t_phase, 1); t_phase = time.time()
@@ -885,14 +888,16 @@ def run(ctx):
         rows = []
         for fx, i in sh_:
             e = fx["entries"][i]
-            rows.append('((%d)%%Z, "%s", %s, %s, "%s")' % (e["t"], hx(e["cursor"]), "None" if e["mono"] is None else "(Some %d%%N)" % e["mono"],
-                                                           coq_fields(e["pairs"]), hx(fx["slices"][i])))
-        etexts.append((HDR + "Definition cases : list (Z * string * option N * list (string * string) * string) := [\n%s\n].\nEval vm_compute in (export_bad cases).\n" % ";\n".join(rows), sh_))
+            rows.append("(%s, %s)" % (c09_render.coq_entry(e), c09_render.pack(fx["slices"][i])))
+        etexts.append((c09_render.HDR + "".join("Definition x%d : (pentry * list int) := %s.\n" % (k, r_) for k, r_ in enumerate(rows))
+                       + "Definition cases := [%s].\nEval vm_compute in (export_bad_p cases).\n" % "; ".join("x%d" % k for k in range(len(rows))), sh_))
     groups["export"] = ("export", etexts)
     ctexts = []
-    rows = ['(%s, "%s")' % (coq_fields(fx["entries"][i]["pairs"]), hx(fx["entries"][i]["cat"])) for fx, i in sample]
+    pfields = lambda pairs: "[" + "; ".join("(%s, %s)" % (c09_render.pack(k), c09_render.pack(v)) for k, v in pairs) + "]"
+    rows = ["(%s, %s)" % (pfields(fx["entries"][i]["pairs"]), c09_render.pack(fx["entries"][i]["cat"])) for fx, i in sample]
     for sh_ in vlib.shard(list(range(len(rows))), 4) if rows else []:
-        ctexts.append((HDR + "Definition cases : list (list (string * string) * string) := [\n%s\n].\nEval vm_compute in (cat_bad cases).\n" % ";\n".join(rows[k] for k in sh_), [sample[k] for k in sh_]))
+        ctexts.append((c09_render.HDR + "".join("Definition x%d : (list (list int * list int) * list int) := %s.\n" % (k, rows[k]) for k in sh_)
+                       + "Definition cases := [%s].\nEval vm_compute in (cat_bad_p cases).\n" % "; ".join("x%d" % k for k in sh_), [sample[k] for k in sh_]))
     groups["cat"] = ("cat", ctexts)
     # whole cat runs on the crafted journals (small ones): entries without MESSAGE print nothing, the loop continues
     crtexts = []
@@ -917,8 +922,9 @@ def run(ctx):
         rows = []
         for k in sh_:
             r = parse_export(streams[k])
-            rows.append('("%s", %s)' % (hx(streams[k]), "None" if r is None else "(Some [%s])" % "; ".join(coq_fields(e) for e in r)))
-        ptexts.append((HDR + "Definition cases : list (string * option (list (list (string * string)))) := [\n%s\n].\nEval vm_compute in (parse_bad cases).\n" % ";\n".join(rows), sh_))
+            rows.append("(%s, %s)" % (c09_render.pack(streams[k]), "None" if r is None else "(Some [%s])" % "; ".join(pfields(e) for e in r)))
+        ptexts.append((c09_render.HDR + "".join("Definition x%d : (list int * option (list (list (list int * list int)))) := %s.\n" % (k, r_) for k, r_ in zip(sh_, rows))
+                       + "Definition cases := [%s].\nEval vm_compute in (parse_bad_p cases).\n" % "; ".join("x%d" % k for k in sh_), sh_))
     groups["parse"] = ("parser twin", ptexts)
     parse_malformed = sum(1 for s in streams if parse_export(s) is None)
     # text/binary rule: in-process export_data_is_text vs the twin of systemd's test (C) and vs model text_safe (B)
@@ -944,7 +950,38 @@ def run(ctx):
             groups["textsafe"] = ("text_safe", [(HDR + "Definition cases : list (string * bool) := [\n%s\n].\nEval vm_compute in (textsafe_bad cases).\n" % ";\n".join(
                 '("%s", %s)' % (hx(objs[k]), "true" if outl[k] == "1" else "false") for k in sh_), sh_) for sh_ in vlib.shard(good, 8)])
 
+    # the ten renderings: byte-exact model tie (B), python spec and journalctl entry by entry (C)
+    rgroups, rstats = c09_render.evaluate(ctx, fxs, jobs, quick, rng, fmt_bound, okh)
+    groups.update(rgroups)
+    jc_fail = []
+    jc_lock = threading.Lock()
+
+    def jc_run(fx):
+        st = dict(jc_entries=0, jc_identical=0, jc_diff={}, jc_not_comparable=0, jc_verbose_entries=0, jc_verbose_not_comparable=0)
+        try:
+            c09_render.compare_with_journalctl(ctx, fx, st, quick, lambda c, e, g, k: jc_fail.append((c, e, g, k)))
+        except Exception as ex:      # journalctl itself
+            with jc_lock:
+                jc_fail.append((None, "journalctl comparison on %s" % fx["name"], repr(ex), None))
+        return st
+    jc_fxs = [f for f in fxs if not f.get("crafted") or f["crafted"] in ("nomsg50", "all")]
+    with ThreadPoolExecutor(max_workers=max(2, vlib.NCPU // 2)) as ex:
+        for st in ex.map(jc_run, jc_fxs):
+            for k, v in st.items():
+                if isinstance(v, dict):
+                    for kk, vv in v.items():
+                        rstats["jc_diff"][kk] = rstats["jc_diff"].get(kk, 0) + vv
+                else:
+                    rstats[k] += v
+    for c, e, g, k in jc_fail:
+        if c is None:
+            ctx.obligation_broken("oracle", e, g)
+        else:
+            ctx.failure(c, e, g, k)
+    phase["renderings_spec_and_journalctl"] = round(time.time() - t_phase, 1)
+
     res = run_coq_all(ctx, groups)
+    rstats = c09_render.collect(ctx, res, rgroups, rstats)
 
     model_dis = spec_dis_coq = old_differs = 0
     for (fx, (A, B, idx, job)), code in (res["window"] or []):
@@ -1021,12 +1058,26 @@ def run(ctx):
         entries_on_which_the_old_text_only_printer_differs=export_old_differs,
         parser_twin_streams=len(streams), parser_twin_malformed_streams=parse_malformed, parser_twin_disagreements=len(pbad or []),
         text_rule_cases=ts_cases, text_rule_model_disagreements=ts_dis,
-        oracle_J1_samples=j1_samples, temp_files_left=len(runner.leftovers), hangs=runner.hangs)
+        oracle_J1_samples=j1_samples, temp_files_left=len(runner.leftovers), hangs=runner.hangs,
+        renderings=dict(
+            what="the ten --journal-output renderings: binary stdout vs Model.JournalRender (src_cfg regenerated from the source) byte for byte on chunks of consecutive entries (window = the chunk) under several --tz-offset values, windows inside a chunk through journal_stdout10; the same runs vs the python spec; the python spec vs journalctl entry by entry with every difference classified",
+            binary_runs_compared_byte_for_byte=rstats["rr_runs"], of_which_windows_inside_a_chunk=rstats["rr_window_runs"],
+            entries_in_the_chunks=rstats["rr_entries"], entry_renderings_compared_byte_for_byte=rstats["rr_entry_renderings"],
+            entry_renderings_by_rendering=rstats["by_rendering"], tz_offsets=rstats["tz_used"],
+            model_disagreements=rstats["model_disagreements"],
+            spec_entry_renderings=rstats["c_entry_renderings"], entries_with_a_multivalued_field_seen_in_verbose=rstats["multivalued_entries_seen"],
+            host_without_boot_id=dict(available=rstats["host_masked_available"], runs=rstats["host_masked_runs"], model_disagreements=rstats["model_host_disagreements"]),
+            monotonic_field_cases=rstats["mono_cases"], monotonic_field_model_disagreements=rstats["model_mono_disagreements"],
+            journalctl=dict(version=systemd_version(), short_entry_renderings_compared=rstats["jc_entries"], identical_to_journalctl=rstats["jc_identical"],
+                            documented_differences=rstats["jc_diff"], not_comparable_unprintable_text=rstats["jc_not_comparable"],
+                            verbose_entries_compared=rstats["jc_verbose_entries"], verbose_not_comparable=rstats["jc_verbose_not_comparable"])))
     ctx.assumptions += [
         "libsystemd is an oracle: contract J1 (seek_realtime_usec + next enumerate exactly the entries with t >= A in file order when receive times are non-decreasing; seek_head all) is a hypothesis of the theorems, sampled on the real library each run; enumeration of data objects, cursors and monotonic times are taken from it",
         "journalctl --file (systemd %s) -o export/cat/json is the ground truth for entry content; its export differs from the enumeration order only in the position of _BOOT_ID" % systemd_version(),
         "journal fixtures with non-decreasing, positive receive times (all shipped ones; libsystemd VALID_REALTIME); bounds below 2^64 microseconds (bounds before 1970 included); entries have fewer than 200 fields",
-        "the eight human-oriented renderings are compared for entry count, order and MESSAGE text only (timestamps by shape), their exact text is not modelled",
+        "the ten renderings are compared byte for byte with Model.JournalRender on sampled chunks of every journal (all chunks in the thorough tier); the constants and tables of the model (formats, dispatch, FIELD_ORDER_VERBOSE, keys, emergency bounds, DT_USES_SOURCE_OVERRIDE) are regenerated from the source by tools/gen/journal.py, the control flow of next_short / next_verbose is a hand transcription tied only by that comparison",
+        "python spec of the renderings (timestamps by python datetime, field assembly of journalctl short, verbose = header + one line per stored data object) is hand-written and is itself compared with journalctl --file entry by entry; the differences between s4 and journalctl are the enumerated classes D1..D9 of checks/c09_render.py, counted in coverage.renderings.journalctl",
+        "--tz-offset values are whole minutes (the command line accepts nothing else); monotonic times below 2^52 us in the fixtures; Rust's f64 arithmetic and float formatting are compared with the model in-process on random u64 values",
         "python twins (parse_export, utf8_is_printable_newline, next_short field assembly) are hand-written; parse_export is cross-checked against the Coq parser each run",
     ]
     shutil.rmtree(scratch, ignore_errors=True)
@@ -1080,7 +1131,10 @@ def replay(ctx, path):
     for f in r.get("failures", []):
         c = f["case"]
         if "fixture" not in c:
-            print("replay: %s" % json.dumps(c)[:300])
+            handled, good, text = c09_render.replay_case(c, None, None, fmt_bound)
+            print("replay: %s%s" % (json.dumps(c)[:300], (" -> %s %s" % (text, "ok" if good else "STILL FAILS")) if handled else ""))
+            if handled and not good:
+                bad += 1
             continue
         fx = fxs.get(c["fixture"])
         if fx is None:
@@ -1089,6 +1143,12 @@ def replay(ctx, path):
             continue
         if "entries" not in fx:
             load_oracle(fx)
+        handled, good, text = c09_render.replay_case(c, fx, runner.run, fmt_bound)
+        if handled:
+            print("replay %s\n  %s -> %s" % (json.dumps({k: v for k, v in c.items() if k != "args"})[:400], text, "ok" if good else "STILL FAILS"))
+            if not good:
+                bad += 1
+            continue
         path_ = dict(fx["containers"]).get(c["container"], fx["plain"])
         tz = None
         if c.get("tz_offset"):
